@@ -15,6 +15,7 @@ pub struct C18;
 pub struct SortCase {
     pub n: u32,
     /// 0 random 1 sorted 2 reversed 3 organ-pipe 4 saw-tooth 5 few-distinct 6 all-equal 7 sorted-with-swaps 8 adversary
+    /// 9 sorted run followed by larger keys in arbitrary order
     pub arrangement: u8,
     pub salt: u32,
     pub distinct: u32,
@@ -25,6 +26,9 @@ pub struct SortCase {
     pub total: bool,
     /// number of items for the end-to-end Nucleo ordering sub-check (0 = skip)
     pub nucleo_items: u32,
+    /// alternative to cancel_at: raise the flag at this fraction (x/65536) of 2*n*log2(n) comparisons
+    #[serde(default)]
+    pub cancel_frac: Option<u16>,
 }
 
 fn h(i: u32, salt: u32) -> u32 {
@@ -46,6 +50,14 @@ pub fn make_data(c: &SortCase) -> Vec<(u32, u32)> {
             4 => i % (c.salt % 50 + 2),
             5 => h(i, c.salt) % c.distinct.max(1),
             6 => 7,
+            // a sorted run of small keys followed by larger keys in arbitrary order
+            9 => {
+                if i < n / 2 {
+                    i
+                } else {
+                    n + h(i, c.salt) % n.max(1)
+                }
+            }
             _ => i,
         })
         .collect();
@@ -62,6 +74,21 @@ pub fn make_data(c: &SortCase) -> Vec<(u32, u32)> {
         }
     }
     keys.into_iter().enumerate().map(|(i, k)| (k, i as u32)).collect()
+}
+
+thread_local! {
+    /// number of comparisons an uncancelled run of the current case makes (measured by a dry run)
+    static BUDGET: std::cell::Cell<Option<u64>> = const { std::cell::Cell::new(None) };
+}
+
+pub fn effective_cancel(c: &SortCase) -> Option<u32> {
+    c.cancel_at.or_else(|| {
+        c.cancel_frac.map(|f| {
+            let n = c.n.max(2) as u64;
+            let budget = BUDGET.with(|b| b.get()).unwrap_or(2 * n * (64 - n.leading_zeros() as u64));
+            ((f as u64 * budget) >> 16) as u32
+        })
+    })
 }
 
 struct Adversary {
@@ -93,12 +120,12 @@ fn run_sort(c: &SortCase, threads: usize, data: &[(u32, u32)]) -> Result<(Vec<(u
     let flag = AtomicBool::new(false);
     let calls = AtomicU64::new(0);
     let raised = AtomicBool::new(false);
-    if c.cancel_at == Some(0) {
+    if effective_cancel(c) == Some(0) {
         flag.store(true, Ordering::Relaxed);
         raised.store(true, Ordering::Relaxed);
     }
     let total = c.total;
-    let cancel_at = c.cancel_at.map(|x| x as u64);
+    let cancel_at = effective_cancel(c).map(|x| x as u64);
     let p = pool(threads);
     // McIlroy's lazy adversary; a descending pre-frozen prefix defeats the "likely sorted" shortcut
     let adv = (c.arrangement == 8).then(|| {
@@ -154,7 +181,12 @@ fn run_sort(c: &SortCase, threads: usize, data: &[(u32, u32)]) -> Result<(Vec<(u
             e.0 = s.val[e.1 as usize];
         }
     }
+    LAST_CALLS.with(|l| l.set(calls.load(Ordering::Relaxed)));
     Ok((v, res, raised.load(Ordering::Relaxed)))
+}
+
+thread_local! {
+    static LAST_CALLS: std::cell::Cell<u64> = const { std::cell::Cell::new(0) };
 }
 
 impl Check for C18 {
@@ -172,8 +204,8 @@ impl Check for C18 {
         }
     }
     fn templates(&self, _tier: Tier) -> Vec<SortCase> {
-        let b = SortCase { n: 0, arrangement: 0, salt: 1, distinct: 0, threads: 4, cancel_at: None, total: false, nucleo_items: 0 };
-        vec![
+        let b = SortCase { n: 0, arrangement: 0, salt: 1, distinct: 0, threads: 4, cancel_at: None, total: false, nucleo_items: 0, cancel_frac: None };
+        let v = vec![
             SortCase { n: 6000, arrangement: 8, threads: 1, ..b.clone() },  // heapsort + break_patterns
             SortCase { n: 3000, arrangement: 8, threads: 3, ..b.clone() },
             SortCase { n: 200, arrangement: 7, salt: 0, ..b.clone() },      // partial insertion sort
@@ -183,13 +215,25 @@ impl Check for C18 {
             SortCase { n: 20001, arrangement: 0, cancel_at: Some(30000), threads: 8, ..b.clone() },
             SortCase { n: 100, arrangement: 1, nucleo_items: 5000, ..b.clone() },
             SortCase { n: 300000, arrangement: 3, threads: 16, ..b.clone() },
-        ]
+        ];
+        // cancellation raised at evenly spaced points inside small, sequentially sorted slices
+        let mut v = v;
+        for (arrangement, distinct) in [(9u8, 0u32), (7, 0), (5, 4), (0, 0)] {
+            for n in [60u32, 300, 1000] {
+                for k in 0..24u32 {
+                    v.push(SortCase { n, arrangement, distinct, salt: 3 + k, threads: 1, cancel_frac: Some((k * 2731 + 500) as u16), ..b.clone() });
+                }
+            }
+        }
+        v
     }
     fn strategy(&self, _tier: Tier) -> BoxedStrategy<SortCase> {
-        (sizes(), prop_oneof![30 => Just(0u8), 8 => Just(1u8), 8 => Just(2u8), 8 => Just(3u8), 8 => Just(4u8), 14 => Just(5u8), 4 => Just(6u8), 12 => Just(7u8), 8 => Just(8u8)], any::<u32>(), prop_oneof![60 => Just(0u32), 40 => 1u32..40], proptest::sample::select(vec![1u8, 2, 3, 8, 16]), prop_oneof![60 => Just(None), 5 => Just(Some(0u32)), 20 => (1u32..5000).prop_map(Some), 15 => (5000u32..400000).prop_map(Some)], any::<bool>(), prop_oneof![90 => Just(0u32), 10 => 1u32..6000])
-            .prop_map(|(n, arrangement, salt, distinct, threads, cancel_at, total, nucleo_items)| {
+        (sizes(), prop_oneof![26 => Just(0u8), 7 => Just(1u8), 7 => Just(2u8), 7 => Just(3u8), 7 => Just(4u8), 13 => Just(5u8), 4 => Just(6u8), 11 => Just(7u8), 9 => Just(8u8), 9 => Just(9u8)], any::<u32>(), prop_oneof![60 => Just(0u32), 40 => 1u32..40], proptest::sample::select(vec![1u8, 2, 3, 8, 16]), prop_oneof![45 => Just((None, None)), 4 => Just((Some(0u32), None)), 8 => (1u32..5000).prop_map(|k| (Some(k), None)), 8 => (5000u32..400000).prop_map(|k| (Some(k), None)), 35 => any::<u16>().prop_map(|f| (None, Some(f)))], any::<bool>(), prop_oneof![90 => Just(0u32), 10 => 1u32..6000], proptest::bool::weighted(0.45), 23u32..1200)
+            .prop_map(|(n, arrangement, salt, distinct, threads, (cancel_at, cancel_frac), total, nucleo_items, small, small_n)| {
+                // cancellation inside small (sequential) sorts is only reachable with small slices
+                let n = if cancel_frac.is_some() && small { small_n } else { n };
                 let n = if arrangement == 8 { n.min(8000) } else { n };
-                SortCase { n, arrangement, salt, distinct, threads, cancel_at, total, nucleo_items }
+                SortCase { n, arrangement, salt, distinct, threads, cancel_at, total, nucleo_items, cancel_frac }
             })
             .boxed()
     }
@@ -197,6 +241,14 @@ impl Check for C18 {
         let mut out = Outcome::default();
         gate::reset();
         let data = make_data(c);
+        BUDGET.with(|b| b.set(None));
+        if c.cancel_at.is_none() && c.cancel_frac.is_some() && c.arrangement != 8 {
+            // dry run without cancellation to learn how many comparisons the sort makes on this input
+            let dry = SortCase { cancel_frac: None, ..c.clone() };
+            if run_sort(&dry, c.threads as usize, &data).is_ok() {
+                BUDGET.with(|b| b.set(Some(LAST_CALLS.with(|l| l.get()).max(1))));
+            }
+        }
         let sorted_input = data.windows(2).all(|w| if c.total { w[0] <= w[1] } else { w[0].0 <= w[1].0 });
         out.nontrivial = c.n > 20 && (!sorted_input || c.arrangement == 8);
         let ctx = format!("{c:?}");
@@ -232,7 +284,7 @@ impl Check for C18 {
                     if v != r {
                         out.fail("differs-from-std-sort", format!("total order result differs from slice::sort; {ctx}"));
                     }
-                    if c.cancel_at.is_none() {
+                    if effective_cancel(c).is_none() {
                         for t in [1usize, 2, 5] {
                             if t == c.threads as usize {
                                 continue;
@@ -245,6 +297,51 @@ impl Check for C18 {
                         }
                     }
                 }
+            }
+        }
+        if c.arrangement == 8 && effective_cancel(c).is_none() {
+            // the frozen values are an ordinary input on which pivot selection degenerates: sort them again
+            // with a plain comparator, once with the ties of the unfrozen elements, once all distinct
+            if let Ok((v, _, _)) = run_sort(c, 1, &data) {
+                let frozen: Vec<u32> = {
+                    let mut f = vec![0u32; c.n as usize];
+                    for e in &v {
+                        f[e.1 as usize] = if e.0 == GAS { c.n } else { e.0 };
+                    }
+                    f
+                };
+                let mut order: Vec<usize> = (0..frozen.len()).collect();
+                order.sort_by_key(|&i| (frozen[i], i));
+                let mut distinct = vec![0u32; frozen.len()];
+                for (rank, &i) in order.iter().enumerate() {
+                    distinct[i] = rank as u32;
+                }
+                for (flavour, keys) in [("ties", frozen), ("distinct", distinct)] {
+                    let mut v: Vec<(u32, u32)> = keys.iter().enumerate().map(|(i, &k)| (k, i as u32)).collect();
+                    let mut want = v.clone();
+                    want.sort_by_key(|e| e.0);
+                    let never = AtomicBool::new(false);
+                    let p = pool(c.threads as usize);
+                    match guarded(|| p.install(|| par_quicksort(&mut v, |a, b| a.0 < b.0, &never))) {
+                        Err(m) => out.fail("panic", format!("par_quicksort panicked on the frozen adversarial input ({flavour}): {m}; {ctx}")),
+                        Ok(cancelled) => {
+                            let keys_sorted = v.windows(2).all(|w| w[0].0 <= w[1].0);
+                            let mut a: Vec<(u32, u32)> = v.clone();
+                            a.sort();
+                            let mut b = want.clone();
+                            b.sort();
+                            if cancelled {
+                                out.fail("spurious-cancel", format!("frozen adversarial input ({flavour}) reported cancelled; {ctx}"));
+                            } else if !keys_sorted {
+                                let at = v.windows(2).position(|w| w[0].0 > w[1].0);
+                                out.fail("unsorted", format!("frozen adversarial input ({flavour}) is not sorted after the call (first inversion at {at:?}); {ctx}"));
+                            } else if a != b {
+                                out.fail("not-a-permutation", format!("frozen adversarial input ({flavour}) lost or duplicated elements; {ctx}"));
+                            }
+                        }
+                    }
+                }
+                out.label("frozen-adversarial-input-replayed");
             }
         }
         for (s, name) in [(site::SORT_HEAPSORT, "branch:heapsort"), (site::SORT_PARTIAL_INSERTION, "branch:partial-insertion"), (site::SORT_PARTITION_EQUAL, "branch:partition-equal"), (site::SORT_BREAK_PATTERNS, "branch:break-patterns"), (site::SORT_JOIN, "branch:join"), (site::SORT_CANCEL_SEEN, "branch:cancel-seen"), (site::SORT_INSERTION, "branch:insertion")] {
